@@ -299,7 +299,7 @@ def rightDeg (G : BipG) (v : Nat) : Nat := (G.lnbrs v).length
 /-- consistency of the object: the two adjacency tables have one row per vertex, edges are inside
 the graph and stored once, and the length of every adjacency row is the number of stored edges
 at that vertex -/
-structure Inv (G : BipG) : Prop where
+structure InvGB (G : BipG) : Prop where
   lrows : G.ladj.length = G.l + 1
   rrows : G.radj.length = G.r + 1
   inside : ∀ e ∈ G.edgeset, 1 ≤ e.1 ∧ e.1 ≤ G.l ∧ 1 ≤ e.2 ∧ e.2 ≤ G.r
@@ -315,14 +315,14 @@ theorem hasEdge_nat (G : BipG) (u v : Nat) :
     G.hasEdge (u : Int) (v : Int) = true ↔ (u, v) ∈ G.edgeset := by
   simp [hasEdge_iff]
 
-theorem getD_replicate_nil (n i : Nat) : ((List.replicate n ([] : List Nat))[i]?).getD [] = [] := by
+theorem getD_replicate_nil_gb (n i : Nat) : ((List.replicate n ([] : List Nat))[i]?).getD [] = [] := by
   simp only [List.getElem?_replicate]
   split <;> rfl
 
-theorem inv_init (l r : Nat) : Inv (init l r) := by
+theorem inv_init_gb (l r : Nat) : InvGB (init l r) := by
   refine ⟨by simp [init], by simp [init], by simp [init], by simp [init], ?_, ?_⟩
-  · intro u; simp [leftDeg, rnbrs, init, getD_replicate_nil]
-  · intro v; simp [rightDeg, lnbrs, init, getD_replicate_nil]
+  · intro u; simp [leftDeg, rnbrs, init, getD_replicate_nil_gb]
+  · intro v; simp [rightDeg, lnbrs, init, getD_replicate_nil_gb]
 
 theorem getD_modify (l : List (List Nat)) (i j : Nat) (f : List Nat → List Nat) (hi : i < l.length) :
     ((l.modify i f)[j]?).getD [] = if i = j then f ((l[j]?).getD []) else (l[j]?).getD [] := by
@@ -369,7 +369,7 @@ theorem addEdge_succeeds (G : BipG) (u v : Int) (h : 1 ≤ u ∧ u ≤ G.l ∧ 1
   rw [if_neg (by simpa using h)]
   split <;> exact ⟨_, rfl⟩
 
-theorem inv_addEdge (G G' : BipG) (u v : Int) (hI : Inv G) (h : G.addEdge u v = .ok G') : Inv G' := by
+theorem inv_addEdge_gb (G G' : BipG) (u v : Int) (hI : InvGB G) (h : G.addEdge u v = .ok G') : InvGB G' := by
   obtain ⟨hr, hcase⟩ := addEdge_ok G G' u v h
   rcases hcase with ⟨_, rfl⟩ | ⟨hne, hl, hr', hes, hla, hra⟩
   · exact hI
